@@ -324,52 +324,56 @@ func c12Check(c c12Case) [][2]string {
 		add(sig, "verifyRAs: %s: got %v want %v", k, got, want)
 	}
 
-	// 2. Through Advertiser.handle: log lines, counters, hook.
-	var logb bytes.Buffer
-	mem := metricslite.NewMemory()
-	mm := NewMetrics(mem, "test", time.Time{}, system.TestState{Forwarding: true}, []config.Interface{ifi})
-	cctx := NewContext(log.New(&logb, "", 0), mm, system.TestState{Forwarding: true})
-	a := NewAdvertiser(cctx, ifi, nil, nil, func() bool { return false })
-	hook := 0
-	a.OnInconsistentRA = func(ours, theirs *ndp.RouterAdvertisement) { hook++ }
-	func() {
-		defer func() { pv = recover() }()
-		ip, herr := a.handle(recv, netip.MustParseAddr("fe80::2"))
-		if herr != nil || ip.IsValid() {
-			add("C12:handle-result", "handle returned (%v, %v) for a received RA", ip, herr)
-		}
-	}()
-	if pv != nil {
-		add("C12:panic", "handle panicked: %v", pv)
-		return out
-	}
-	var counted []string
-	logged := c12LoggedProblems(strings.Split(logb.String(), "\n"), "", want)
-	for k, v := range mem.Series()[advInconsistencies].Samples {
-		// interface=eth0,details=...,field=...
-		var field, details string
-		for _, kv := range strings.Split(k, ",") {
-			if strings.HasPrefix(kv, "field=") {
-				field = kv[6:]
+	// 2. Through Advertiser.handle: log lines, counters, hook - on a forwarding interface
+	// and on one that is not (its own RA then has router lifetime 0, which 6.2.7 does not
+	// compare: every other inconsistency is reported all the same).
+	for _, fwd := range []bool{true, false} {
+		var logb bytes.Buffer
+		mem := metricslite.NewMemory()
+		mm := NewMetrics(mem, "test", time.Time{}, system.TestState{Forwarding: fwd}, []config.Interface{ifi})
+		cctx := NewContext(log.New(&logb, "", 0), mm, system.TestState{Forwarding: fwd})
+		a := NewAdvertiser(cctx, ifi, nil, nil, func() bool { return false })
+		hook := 0
+		a.OnInconsistentRA = func(ours, theirs *ndp.RouterAdvertisement) { hook++ }
+		func() {
+			defer func() { pv = recover() }()
+			ip, herr := a.handle(recv, netip.MustParseAddr("fe80::2"))
+			if herr != nil || ip.IsValid() {
+				add("C12:handle-result", "handle returned (%v, %v) for a received RA", ip, herr)
 			}
-			if strings.HasPrefix(kv, "details=") {
-				details = kv[8:]
+		}()
+		if pv != nil {
+			add("C12:panic", "handle panicked: %v", pv)
+			return out
+		}
+		var counted []string
+		logged := c12LoggedProblems(strings.Split(logb.String(), "\n"), "", want)
+		for k, v := range mem.Series()[advInconsistencies].Samples {
+			// interface=eth0,details=...,field=...
+			var field, details string
+			for _, kv := range strings.Split(k, ",") {
+				if strings.HasPrefix(kv, "field=") {
+					field = kv[6:]
+				}
+				if strings.HasPrefix(kv, "details=") {
+					details = kv[8:]
+				}
+			}
+			for i := 0; i < int(v); i++ {
+				counted = append(counted, field+"|"+details)
 			}
 		}
-		for i := 0; i < int(v); i++ {
-			counted = append(counted, field+"|"+details)
+		logged, counted = c12Filter(logged, hopDC), c12Filter(counted, hopDC)
+		if sig, k := classify(want, logged); sig != "" {
+			add(strings.Replace(sig, "C12:", "C12:log:", 1), "log lines: %s: got %v want %v\n%s", k, logged, want, logb.String())
 		}
-	}
-	logged, counted = c12Filter(logged, hopDC), c12Filter(counted, hopDC)
-	if sig, k := classify(want, logged); sig != "" {
-		add(strings.Replace(sig, "C12:", "C12:log:", 1), "log lines: %s: got %v want %v\n%s", k, logged, want, logb.String())
-	}
-	if sig, k := classify(want, counted); sig != "" {
-		add(strings.Replace(sig, "C12:", "C12:metric:", 1), "inconsistencies_total: %s: got %v want %v", k, counted, want)
-	}
-	if !hopDC {
-		if (len(want) > 0) != (hook > 0) || hook > 1 {
-			add("C12:hook", "OnInconsistentRA fired %d time(s) with %d expected problem(s)", hook, len(want))
+		if sig, k := classify(want, counted); sig != "" {
+			add(strings.Replace(sig, "C12:", "C12:metric:", 1), "inconsistencies_total: %s: got %v want %v", k, counted, want)
+		}
+		if !hopDC {
+			if (len(want) > 0) != (hook > 0) || hook > 1 {
+				add("C12:hook", "OnInconsistentRA fired %d time(s) with %d expected problem(s)", hook, len(want))
+			}
 		}
 	}
 	return out
@@ -460,7 +464,7 @@ func c12Bases() [][2]c12Spec {
 func TestVerifC12(t *testing.T) {
 	r := ev.Begin("C12", "pairs")
 	defer r.End(t)
-	r.Rule = "pairs (own RA, received RA): for each of 11 aspects (hop limit, M, O, reachable and retransmit timer {0, 250ms, 750ms, 1s, 1.5s, 30s/30.5s}, MTU, prefixes, routes, RDNSS, DNSSL, captive portal) the full product of a small value domain (absent / equal / different lifetime, contents, count, order, preference, prefix length; both directions) with the other aspects equal (from a full and a minimal base), plus every aspect different at once and all-but-one (up to 17 inconsistencies in one RA) - quick; all pairs of aspects, full product of both - thorough; the received RA always passes through ndp.MarshalMessage/ParseMessage; checked on verifyRAs and through Advertiser.handle (log lines, inconsistencies_total, hook); non-trivial = the two RAs differ in at least one compared aspect or share an option kind; distinct = distinct (own, received)"
+	r.Rule = "pairs (own RA, received RA): for each of 11 aspects (hop limit, M, O, reachable and retransmit timer {0, 250ms, 750ms, 1s, 1.5s, 30s/30.5s}, MTU, prefixes, routes, RDNSS, DNSSL, captive portal) the full product of a small value domain (absent / equal / different lifetime, contents, count, order, preference, prefix length; both directions) with the other aspects equal (from a full and a minimal base), plus every aspect different at once and all-but-one (up to 17 inconsistencies in one RA) - quick; all pairs of aspects, full product of both - thorough; the received RA always passes through ndp.MarshalMessage/ParseMessage; checked on verifyRAs and through Advertiser.handle on a forwarding and on a non-forwarding interface (log lines, inconsistencies_total, hook); non-trivial = the two RAs differ in at least one compared aspect or share an option kind; distinct = distinct (own, received)"
 	r.Assumptions = []string{"a difference in hop limit where one side is 0 (unspecified) is a don't-care: RFC 4861 exempts it, the statement says 'differing'"}
 
 	if r.Replay != nil {
